@@ -19,10 +19,11 @@ Print Assumptions C02_remembered_second.
 Theorem C02_computed_third_and_remembered : forall gr st o h,
   (alookup key2_eqb (dict st) (o, h) = None \/ alookup key2_eqb (dict st) (o, h) = Some VNone) ->
   (alookup key2_eqb (cache st) (o, h) = None \/ alookup key2_eqb (cache st) (o, h) = Some VNone) ->
-  let '(st1, r) := gr st o (cls_of st o) h in
+  let '(st0, r) := gr (set_inget st true) o (cls_of st o) h in
+  let st1 := set_inget st0 (inget st) in
   read_with gr st o h =
     match r with
-    | Exn ERecursion => (st1, Exn EAttr)
+    | Exn ERecursion => (st1, Exn (if inget st then ERecursion else EAttr))
     | Exn e => (st1, Exn e)
     | Val VNone => (st1, Exn EAttr)
     | Val v => if nonfinite v then (st1, Exn EValue) else (set_cache st1 (aset key2_eqb (cache st1) (o, h) v), Val v)
